@@ -30,20 +30,30 @@ STYLE_AXES = {
     "empty_host_firewall": [False, True],
     "omit_zero_value": [False, True],
     "flow": [None, True, False],
+    "keys": ["canonical"],
+    "aliases": [False, True],
 }
 
 
 def styles(tier):
     names = list(STYLE_AXES)
     if tier == "thorough":
-        rows = [dict(zip(names, combo)) for combo in itertools.product(*[STYLE_AXES[n] for n in names])]
+        # full product of the content-bearing axes; key spacing and anchors/aliases are rotated over it
+        core = [n for n in names if n not in ("keys", "aliases")]
+        rows = []
+        for i, combo in enumerate(itertools.product(*[STYLE_AXES[n] for n in core])):
+            r = dict(zip(core, combo))
+            r["keys"] = "canonical"
+            r["aliases"] = STYLE_AXES["aliases"][i % 2]
+            rows.append(r)
     else:
         rows = pairwise(STYLE_AXES, names)
     out = []
     for r in rows:
         st = {"os_none": r["os_none"], "access": r["access"], "repeat_sensitive_value": r["repeat_sensitive_value"],
               "empty_host_firewall": r["empty_host_firewall"], "omit_zero_value": r["omit_zero_value"],
-              "float_numbers": r["numbers"] == "float", "int_numbers": r["numbers"] == "int", "flow": r["flow"]}
+              "float_numbers": r["numbers"] == "float", "int_numbers": r["numbers"] == "int", "flow": r["flow"],
+              "keys": r["keys"], "aliases": r["aliases"]}
         out.append(st)
     return out
 
